@@ -8,12 +8,14 @@ lines before the first and after any record, last record with or without final n
 list of buffer sizes.  No bound on any size except where Go's `int` itself is the bound (text round trip).
 -/
 import Hts.Lemmas.FaiFileText
+import Hts.Lemmas.FaiSane
+import Hts.Lemmas.FaiSample
 set_option linter.unusedVariables false
 set_option linter.unusedSimpArgs false
 namespace Hts.Props.C19
 open Hts.Model.Fai
 open Hts.Spec.Fasta (File Rec Entry)
-open Hts.Lemmas.Fai (ofEntry expectedCalls IndexOK NameOK Small)
+open Hts.Lemmas.Fai (ofEntry expectedCalls IndexOK NameOK Small sampleFile)
 
 /-! ### NewIndex -/
 
@@ -172,6 +174,49 @@ theorem newIndex_rejects_duplicate (f : File) (h : f.WF) (hfin : ∀ r ∈ f.rec
     newIndex (f.render ++ ((GT :: (r.name ++ d) ++ t) ++ rest)) = .error .duplicate :=
   Hts.Lemmas.Fai.newIndex_duplicate f h hfin r hr d t rest hd ht hl
 
+/-- a sequence line after a blank line — a blank line inside a record, or between the header and the sequence —
+is rejected ("fai: unexpected short line", fixes/C19-4): such a file has no FAI description, and before the
+repair it was indexed silently and read back with line terminators in place of bases. `line` is any line
+that is neither blank nor a header. -/
+theorem newIndex_rejects_blank_inside_record (f : File) (h : f.WF) (hfin : ∀ r ∈ f.recs, r.finalNewline = true)
+    (bl : List Bytes) (hbl : bl ≠ []) (hb : ∀ l ∈ bl, ∀ b ∈ l, Hts.Spec.Fasta.isBlankByte b = true)
+    (line rest : Bytes) (hl : Hts.Lemmas.Fai.Term line) (h1 : trimSpace line ≠ [])
+    (h2 : (trimSpace line).head? ≠ some GT) :
+    newIndex (f.render ++ ((Hts.Spec.Fasta.blankLines bl).flatten ++ (line ++ rest))) = .error .shortLine :=
+  Hts.Lemmas.Fai.newIndex_blank_inside f h hfin bl hbl hb line rest hl h1 h2
+
+/-! ### No reachable division by zero (the guard of `endOfLineOffset`), for ARBITRARY input -/
+
+/-- Whatever bytes `NewIndex` is given, every record of an index it returns has `BasesPerLine > 0` unless its
+`Length` is 0. -/
+theorem newIndex_records_sane (fasta : Bytes) (idx : Index) (h : newIndex fasta = .ok idx) :
+    ∀ R ∈ idx, R.basesPerLine = 0 → R.length = 0 :=
+  Hts.Lemmas.Fai.newIndex_sane fasta idx h
+
+/-- Whatever text `ReadFrom` is given, every record it accepts passed `Record.isValid`; in particular it has no
+negative field, `BytesPerLine ≥ BasesPerLine`, and `BasesPerLine > 0` unless `Length` is 0. -/
+theorem readFrom_records_valid (text : Bytes) (out : List RawRecord) (h : readFrom text = .ok out) :
+    ∀ r ∈ out, r.isValid = true ∧ 0 ≤ r.length ∧ 0 ≤ r.start ∧ 0 ≤ r.basesPerLine ∧
+      r.basesPerLine ≤ r.bytesPerLine ∧ (r.basesPerLine = 0 → r.length = 0) := by
+  intro r hr
+  have hv := Hts.Lemmas.Fai.readFrom_valid text out h r hr
+  exact ⟨hv, Hts.Lemmas.Fai.valid_sane r hv⟩
+
+/-- `read_never_divides_by_zero`: for an index `NewIndex` built from ANY input, any handle `SeqRange` or `Seq`
+returns (any name and range it accepts), any cursor position (any earlier calls or `Reset`) and any buffer
+size, `Read` does not hit the integer division by zero of `endOfLineOffset`/`position`: the model's `panicDiv`
+outcome is unreachable through the package API.  (The same holds for an index accepted by `ReadFrom`, by
+`readFrom_records_valid`.) -/
+theorem read_never_divides_by_zero (fasta file : Bytes) (idx : Index) (h : newIndex fasta = .ok idx)
+    (name : Bytes) (s e : Int) (sq : Seq) (hsq : seqRange idx name s e = .ok sq ∨ seqWhole idx name = .ok sq)
+    (cur k : Nat) : (Seq.read file { sq with cur := cur } k).err ≠ .panicDiv := by
+  have hb : sq.stop ≤ sq.rcd.length ∧ idx.lookup name = some sq.rcd := by
+    rcases hsq with hsq | hsq
+    · exact (Hts.Lemmas.Fai.seqRange_bounds idx name s e sq hsq).2
+    · exact (Hts.Lemmas.Fai.seqWhole_bounds idx name sq hsq).2
+  have hs := newIndex_records_sane fasta idx h sq.rcd (Hts.Lemmas.Fai.lookup_mem idx name sq.rcd hb.2)
+  exact Hts.Lemmas.Fai.read_no_div file { sq with cur := cur } hs hb.1 k
+
 /-! ### WriteTo / ReadFrom -/
 
 /-- own decimal formatting / parsing round trip (`%d` and `strconv.ParseInt` on Go's `int` range) -/
@@ -255,17 +300,59 @@ theorem fai_roundtrip_witness : ¬ fai_roundtrip_full := by
 
 /-! ### Non-vacuity -/
 
-/-- a blank line first; then two records: CRLF with a description, bases a multiple of the width, two blank
-lines after it; then an LF record whose last line is shorter and not terminated -/
-def sampleFile : File :=
-  { leadingBlanks := [[32]], recs :=
-   [{ name := [115, 49], desc := some [32, 100, 32, 101], bases := [65, 67, 71, 84, 65, 67, 71, 84], width := 4,
-      eol := .crlf, finalNewline := true, blanksAfter := [[13], [32, 13]] },
-    { name := [115, 50], desc := none, bases := [71, 71, 84], width := 2, eol := .lf, finalNewline := false,
-      blanksAfter := [] },
-   ] }
-
 example : sampleFile.WF := by decide
+
+/-! Instances of the theorems on `sampleFile` (a leading blank line; record `s1`: CRLF, description, 8 bases on
+lines of 4, two blank lines after it; record `s2`: LF, 3 bases on lines of 2, short last line without final
+newline): every hypothesis is discharged, so none of the statements is vacuous. -/
+
+/-- the index of `sampleFile`, concretely -/
+example : newIndex sampleFile.render = .ok [⟨[115, 49], 8, 11, 4, 6⟩, ⟨[115, 50], 3, 32, 2, 3⟩] := by
+  rw [index_true sampleFile (by decide), Hts.Lemmas.Fai.sampleFile_entries]
+  rfl
+
+example := position_correct sampleFile (by decide) _ (index_true sampleFile (by decide))
+  Hts.Lemmas.Fai.sampleRec1 (by simp [sampleFile]) 5 (by decide)
+
+/-- the range [1,3) of `s2` (it crosses the line end and reaches the unterminated last line), buffers 1 then 7 -/
+example := read_exact sampleFile (by decide) _ (index_true sampleFile (by decide))
+  Hts.Lemmas.Fai.sampleRec2 (by simp [sampleFile]) 1 3 (by decide) (by decide) [1, 7]
+
+/-- the range [2,8) of the CRLF record `s1`, buffers 3, 3, 3 -/
+example := read_exact sampleFile (by decide) _ (index_true sampleFile (by decide))
+  Hts.Lemmas.Fai.sampleRec1 (by simp [sampleFile]) 2 8 (by decide) (by decide) [3, 3, 3]
+
+example := read_whole sampleFile (by decide) _ (index_true sampleFile (by decide))
+  Hts.Lemmas.Fai.sampleRec1 (by simp [sampleFile]) [64]
+
+example := read_call sampleFile (by decide) _ (index_true sampleFile (by decide))
+  Hts.Lemmas.Fai.sampleRec2 (by simp [sampleFile]) _
+  (index_lookup sampleFile (by decide) _ (index_true sampleFile (by decide))
+    Hts.Lemmas.Fai.sampleRec2 (by simp [sampleFile])).choose_spec.choose_spec.2 1 0 3 (by decide) (by decide) 4096
+
+example := index_records_valid sampleFile (by decide) Hts.Lemmas.Fai.sampleFile_size _
+  (index_true sampleFile (by decide))
+
+example := fai_roundtrip_partial sampleFile (by decide) (by decide) Hts.Lemmas.Fai.sampleFile_size _
+  (index_true sampleFile (by decide))
+
+/-- rejection theorems on `sampleFile`'s first record alone (all lines terminated): `>s1 d e\r\nACGT\r\nACGT\r\n`
+followed by a blank line and `AC\n` (blank line inside a record), by `>\n`, and by a second `>s1` header -/
+example := newIndex_rejects_blank_inside_record Hts.Lemmas.Fai.sampleFile1 (by decide) (by decide)
+  [[]] (by decide) (by decide) [65, 67, 10] [] ⟨[65, 67], by decide, rfl⟩ (by decide) (by decide)
+
+example := newIndex_rejects_nameless_header Hts.Lemmas.Fai.sampleFile1 (by decide) (by decide)
+  [62, 10] [65, 10] ⟨[62], by decide, rfl⟩ (by decide)
+
+example := newIndex_rejects_duplicate Hts.Lemmas.Fai.sampleFile1 (by decide) (by decide)
+  Hts.Lemmas.Fai.sampleRec1b (by simp [Hts.Lemmas.Fai.sampleFile1]) [32, 120] [10] [65, 10]
+  (Or.inr ⟨32, [120], rfl, by decide, by decide⟩) (by decide) ⟨[62, 115, 49, 32, 120], by decide, rfl⟩
+
+/-- an index built from arbitrary bytes (`ACGT` before any header: not a well-formed file) still cannot make
+`Read` divide by zero -/
+example (idx : Index) (h : newIndex [65, 67, 71, 84, 10, 62, 97, 10] = .ok idx) (sq : Seq)
+    (hsq : seqWhole idx [97] = .ok sq) :=
+  read_never_divides_by_zero _ [] idx h [97] 0 0 sq (Or.inr hsq) 0 1
 
 /-- an empty sequence followed by another record is well formed too -/
 example : ({ recs := [{ name := [97], desc := none, bases := [], width := 1, eol := .lf, finalNewline := true,
